@@ -48,7 +48,7 @@ func init() {
 
 // ---------------------------------------------------------------- ops
 type op struct {
-	kind           byte // s d g a f r x  e E R (flush while the provider fails / the table file cannot be opened / cannot be renamed into place)  k (flush that dies, then restart)
+	kind           byte // s d g a f r x  e E R (flush while the provider fails / the table file cannot be opened / cannot be renamed into place)  k (flush that dies, then restart)  c (flush during which an edit arrives)
 	key            string
 	pw, push, pull string // users
 	admin, upd     bool
@@ -56,6 +56,7 @@ type op struct {
 	ka             bool
 	disk           string // x
 	hook, part     string // k: crash point; bytes of the write in progress: - 0 1 h m a
+	edit           *op    // c: the Save / Del issued from another goroutine when the flush has reached `hook`
 }
 
 func hx(s string) string { return Hx([]byte(s)) }
@@ -74,6 +75,8 @@ func (o op) token(users bool) string {
 		return "x," + o.disk
 	case 'k':
 		return "k," + o.hook + "," + o.part
+	case 'c':
+		return "c," + o.hook + "," + o.edit.token(users)
 	default:
 		return string(o.kind)
 	}
@@ -107,7 +110,26 @@ func parseLine(l string) (users bool, ops []op, ok bool) {
 			break
 		}
 		p := strings.Split(t, ",")
+		var during string
+		if p[0] == "c" && len(p) >= 4 && (p[2] == "s" || p[2] == "d") {
+			during, p = p[1], p[2:]
+		}
 		u := func(i int) string { return string(Unhx(p[i])) }
+		if during != "" {
+			n := len(ops)
+			switch {
+			case p[0] == "s" && users && len(p) == 7:
+				ops = append(ops, op{kind: 'c', hook: during, edit: &op{kind: 's', key: u(1), pw: u(2), admin: p[3] == "1", push: u(4), pull: u(5), upd: p[6] == "1"}})
+			case p[0] == "s" && !users && len(p) == 5:
+				ops = append(ops, op{kind: 'c', hook: during, edit: &op{kind: 's', key: u(1), url: u(2), ka: p[3] == "1"}})
+			case p[0] == "d" && len(p) == 2:
+				ops = append(ops, op{kind: 'c', hook: during, edit: &op{kind: 'd', key: u(1)}})
+			}
+			if len(ops) == n {
+				return false, nil, false
+			}
+			continue
+		}
 		switch {
 		case p[0] == "s" && users && len(p) == 7:
 			ops = append(ops, op{kind: 's', key: u(1), pw: u(2), admin: p[3] == "1", push: u(4), pull: u(5), upd: p[6] == "1"})
@@ -221,7 +243,7 @@ type table struct {
 	hadSnap bool
 	life    []op
 	raws    []rawCrash // byte-level record of every crash of this history
-	ann     []string   // outcome of every crash op, for the specification ("o" old, "n" new, "x" neither)
+	ann     []string   // observations for the specification, one per k / c op in order: outcome of a crash op ("o" old, "n" new, "x" neither); whether the edit of a c op took effect after the flush had returned ("b") or while it ran ("d")
 }
 
 func (t *table) configure(file string) string {
@@ -294,23 +316,11 @@ func (t *table) apply(o op) (res string) {
 			res = "panic"
 		}
 	}()
-	ok := func(err error) string {
-		if err != nil {
-			return "err"
-		}
-		return "ok"
-	}
 	switch o.kind {
-	case 's':
-		if t.users {
-			return ok(auth.Save(&auth.User{Name: o.key, Password: o.pw, Admin: o.admin, PushAccess: o.push, PullAccess: o.pull}, o.upd))
-		}
-		return ok(route.Save(&route.Route{Pattern: o.key, URL: o.url, KeepAlive: o.ka}))
-	case 'd':
-		if t.users {
-			return ok(auth.Del(o.key))
-		}
-		return ok(route.Del(o.key))
+	case 's', 'd':
+		return t.edit(o)
+	case 'c':
+		return t.flushDuring(o)
 	case 'g':
 		if t.users {
 			if u := auth.Get(o.key); u != nil {
@@ -384,6 +394,76 @@ func (t *table) apply(o op) (res string) {
 		return "ok"
 	}
 	return "?"
+}
+
+// edit: Save / Del on the real table
+func (t *table) edit(o op) (res string) {
+	defer func() {
+		if x := recover(); x != nil {
+			res = "panic"
+		}
+	}()
+	ok := func(err error) string {
+		if err != nil {
+			return "err"
+		}
+		return "ok"
+	}
+	switch {
+	case o.kind == 's' && t.users:
+		return ok(auth.Save(&auth.User{Name: o.key, Password: o.pw, Admin: o.admin, PushAccess: o.push, PullAccess: o.pull}, o.upd))
+	case o.kind == 's':
+		return ok(route.Save(&route.Route{Pattern: o.key, URL: o.url, KeepAlive: o.ka}))
+	case t.users:
+		return ok(auth.Del(o.key))
+	}
+	return ok(route.Del(o.key))
+}
+
+// parkWait: how long a flush is held at a file-system step of EncodeJSONFile for the edit issued from
+// another goroutine to complete.  Nothing is wrong when it does not: a table that keeps its lock
+// over the flush makes the edit wait for the flush's return, and "the edit did not complete while
+// the flush was parked" is then the answer — the time is spent, not judged.  (A table that lets the
+// edit in needs microseconds; a machine too busy to schedule the goroutine within the wait only makes
+// the edit land later, which no verdict depends on.)
+var parkWait = 120 * time.Millisecond
+
+// flushDuring: Flush is called; when it has reached the file-system step `hook` of EncodeJSONFile
+// the edit is issued from another goroutine and the flush is parked there until the edit has
+// completed or parkWait is over; then the flush goes on.  The edit is waited for in any case
+// (without a budget of its own: the history's watchdog covers it).
+//   C:blocked;<flush>;<edit>   the edit did not complete while the flush was parked (it waited for the table)
+//   C:during;<flush>;<edit>    the edit completed while the flush was inside the provider
+//   C:nohook;<flush>;<edit>    the flush never reached that step (nothing pending / no such step): the edit ran after it
+func (t *table) flushDuring(o op) string {
+	done := make(chan string, 1)
+	issued, during, er := false, false, ""
+	prev := utils.VerifIOHook
+	utils.VerifIOHook = func(point string, f *os.File, pending []byte) {
+		if point != o.hook || issued {
+			return
+		}
+		issued = true
+		go func() { done <- t.edit(*o.edit) }()
+		select {
+		case er = <-done:
+			during = true
+		case <-time.After(parkWait):
+		}
+	}
+	fr := t.flush()
+	utils.VerifIOHook = prev
+	switch {
+	case !issued:
+		t.ann = append(t.ann, "b")
+		return "C:nohook;" + fr + ";" + t.edit(*o.edit)
+	case during:
+		t.ann = append(t.ann, "d")
+		return "C:during;" + fr + ";" + er
+	}
+	er = <-done
+	t.ann = append(t.ann, "b")
+	return "C:blocked;" + fr + ";" + er
 }
 
 // a table file written by hand (not by Flush): entries "+"-separated, fields "."-separated, hex
@@ -706,6 +786,104 @@ func genCrashHistory(c *Ctx, users bool, i int) []op {
 	return ops
 }
 
+// a history with an edit that arrives WHILE a flush is running: edits (mostly flushed once, so that a
+// table file exists), something pending, then Flush with a Save (new entry / update of an existing
+// one, also in another spelling) or a Del (of a flushed entry / of the entry whose save is pending)
+// issued from another goroutine when the flush has reached one of the file-system steps of
+// EncodeJSONFile; then — after nothing, a look at the table, or further edits, sometimes a second
+// overlap — a further flush, a restart, and the table and the entries concerned are read back.
+// Sometimes the restart comes without a further flush.
+func genOverlapHistory(c *Ctx, users bool, i int) []op {
+	r := c.Rng
+	var ops []op
+	var flushed []string
+	if r.Chance(80) {
+		h := genOps(c, users, 1+r.Intn(4), false)
+		for _, o := range h {
+			if o.kind == 's' {
+				flushed = append(flushed, o.key)
+			}
+		}
+		ops = append(ops, h...)
+		ops = append(ops, op{kind: 'f'})
+	}
+	newEntry := func(tag string) op {
+		if users {
+			return op{kind: 's', key: fmt.Sprintf("%s%d", tag, i), pw: passwords[1+r.Intn(len(passwords)-1)], admin: r.Chance(20), pull: rights[r.Intn(len(rights))], upd: true}
+		}
+		return op{kind: 's', key: fmt.Sprintf("/%s%d/", tag, i), url: routeURLs[r.Intn(4)], ka: r.Chance(30)}
+	}
+	rounds := 1
+	if r.Chance(20) {
+		rounds = 2
+	}
+	var touched []string
+	for k := 0; k < rounds; k++ {
+		var h2 []op
+		if n := r.Intn(3); n > 0 {
+			h2 = genOps(c, users, n, false)
+			h2 = h2[:len(h2)-1] // without the trailing look at the table
+		}
+		pend := newEntry(fmt.Sprintf("p%d-", k))
+		if r.Chance(90) {
+			h2 = append(h2, pend) // something is pending: the flush reaches the provider
+		}
+		ops = append(ops, h2...)
+		var ed op
+		switch (i/len(hooks) + k) % 5 {
+		case 0:
+			ed = newEntry(fmt.Sprintf("n%d-", k)) // create
+		case 1:
+			ed = newEntry(fmt.Sprintf("p%d-", k)) // update of the entry whose save is being flushed
+			if r.Chance(50) {
+				ed.key = strings.ToUpper(ed.key)
+			}
+			ed.upd = r.Chance(70)
+		case 2:
+			ed = op{kind: 'd', key: pend.key} // delete of the entry whose save is being flushed
+		case 3:
+			ed = op{kind: 'd', key: "admin"}
+			if !users || r.Chance(50) {
+				if len(flushed) > 0 {
+					ed.key = flushed[r.Intn(len(flushed))] // delete of an entry that is in the file
+				} else {
+					ed.key = pend.key
+				}
+			}
+		default:
+			ed = newEntry("x") // update of an entry that is in the file (or create)
+			if len(flushed) > 0 {
+				ed.key = flushed[r.Intn(len(flushed))]
+			} else if users {
+				ed.key = "Admin"
+			}
+			ed.upd = r.Chance(70)
+		}
+		touched = append(touched, ed.key, pend.key)
+		ops = append(ops, op{kind: 'c', hook: hooks[(i+k)%len(hooks)], edit: &ed})
+		switch {
+		case r.Chance(30):
+			ops = append(ops, op{kind: 'a'})
+		case r.Chance(25):
+			more := genOps(c, users, 1+r.Intn(2), false)
+			ops = append(ops, more...)
+		}
+	}
+	if i%8 != 7 {
+		ops = append(ops, op{kind: 'f'})
+		if r.Chance(15) {
+			ops = append(ops, op{kind: 'f'}) // nothing pending any more
+		}
+	}
+	ops = append(ops, op{kind: 'r'}, op{kind: 'a'})
+	for _, k := range touched {
+		if r.Chance(50) {
+			ops = append(ops, op{kind: 'g', key: k})
+		}
+	}
+	return ops
+}
+
 // the stated quantifier, literally: every history up to a bounded length over a small set of names /
 // patterns (thorough tier), and every crash point after every such history of length ≤ 2
 func enumerate(users bool, emit func([]op)) {
@@ -718,11 +896,20 @@ func enumerate(users bool, emit func([]op)) {
 			{kind: 's', key: "/a/b", url: "rtsp://h/z"}, {kind: 'd', key: "/A/"}, {kind: 'd', key: "/a/b/."}, {kind: 'f'}, {kind: 'r'}, {kind: 'E'}}
 	}
 	tail := []op{{kind: 'a'}, {kind: 'f'}, {kind: 'r'}, {kind: 'a'}}
+	novl := 0
 	var rec func(h []op, depth int)
 	rec = func(h []op, depth int) {
 		if len(h) > 0 {
 			emit(append(append([]op{}, h...), tail...))
 			if len(h) <= 2 {
+				// an edit that arrives while the flush of this history is at a file-system step: every
+				// (step, edit) pair in turn over the histories
+				for n := 0; n < 2; n++ {
+					ed := alpha[(novl/len(hooks)+n*2)%5] // the three saves and the two deletes
+					ops := append(append([]op{}, h...), op{kind: 'c', hook: hooks[novl%len(hooks)], edit: &ed}, op{kind: 'a'})
+					emit(append(ops, tail...))
+					novl++
+				}
 				for _, hk := range hooks {
 					parts := []string{"-"}
 					if hk == "before-write" {
@@ -747,18 +934,26 @@ func enumerate(users bool, emit func([]op)) {
 // ---------------------------------------------------------------- classification
 func classify(users bool, ops []op, i int) string {
 	k := kindName(users)
-	reloaded, crashed := false, false
+	reloaded, crashed, overlapped, reloadedSince := false, false, false, false
 	for _, o := range ops[:i] {
-		if o.kind == 'r' {
-			reloaded = true
-		}
-		if o.kind == 'k' {
-			crashed = true
+		switch o.kind {
+		case 'r':
+			reloaded, reloadedSince = true, overlapped
+		case 'k':
+			crashed, reloadedSince = true, overlapped
+		case 'c':
+			overlapped = true
 		}
 	}
 	name := map[byte]string{'s': "save", 'd': "del", 'g': "get", 'a': "all", 'f': "flush", 'r': "restart", 'x': "setdisk",
-		'e': "flush-provider-down", 'E': "flush-fs-refuses", 'R': "flush-fs-refuses", 'k': "crash"}[ops[i].kind]
+		'e': "flush-provider-down", 'E': "flush-fs-refuses", 'R': "flush-fs-refuses", 'k': "crash", 'c': "edit"}[ops[i].kind]
 	switch {
+	case ops[i].kind == 'c':
+		return k + "-edit-during-flush"
+	case overlapped && reloadedSince:
+		return k + "-" + name + "-after-edit-during-flush-and-restart" // what an edit that overlapped a flush left is not what a restart loads
+	case overlapped:
+		return k + "-" + name + "-after-edit-during-flush"
 	case crashed:
 		return k + "-" + name + "-after-crash"
 	case reloaded:
@@ -876,6 +1071,12 @@ func runC18(c *Ctx) {
 		for i := 0; i < ncr; i++ {
 			users := i%2 == 0
 			cases = append(cases, tcase{users: users, ops: genCrashHistory(c, users, i)})
+		}
+		// each overlap costs parkWait on a tree whose Flush keeps the lock
+		novl := c.Budget(50, 400)
+		for i := 0; i < novl; i++ {
+			users := i%2 == 0
+			cases = append(cases, tcase{users: users, ops: genOverlapHistory(c, users, i/2)})
 		}
 	}
 	for i := range cases {
@@ -996,7 +1197,7 @@ func runC18(c *Ctx) {
 	}
 	outs := c.Drive(lines)
 	c.Res.Rule = "table case = one history of Save/Del/Get/All/Flush (working, provider down, file system refusing)/restart/" +
-		"Flush-that-dies-at-a-crash-point on the real users or routes table with the real JSON provider (distinct by the op line; " +
+		"Flush-that-dies-at-a-crash-point/Flush-during-which-a-Save-or-Del-is-issued-from-another-goroutine-at-a-file-system-step on the real users or routes table with the real JSON provider (distinct by the op line; " +
 		"non-trivial when it contains a flush that writes and a restart); every dying flush runs in a child process that SIGKILLs itself " +
 		"inside EncodeJSONFile and is also compared byte by byte with the file-system model (crash point, bytes of a write in progress)"
 
@@ -1041,6 +1242,31 @@ func runC18(c *Ctx) {
 				if impl[j] == "err" {
 					c.Count("save-rejected")
 				}
+			}
+			if o.kind == 'c' {
+				// C:<how>;<flush answer, itself with ';'>;<edit answer>
+				f := []string{impl[j], "", ""}
+				if a, b := strings.Index(impl[j], ";"), strings.LastIndex(impl[j], ";"); a >= 0 && b > a {
+					f = []string{impl[j][:a], impl[j][a+1 : b], impl[j][b+1:]}
+				}
+				c.Count("edit-during-flush-at-" + o.hook)
+				c.Count("edit-during-flush-" + string(o.edit.kind) + "-" + strings.TrimPrefix(f[0], "C:"))
+				if strings.HasPrefix(f[1], "W:") {
+					wrote = true
+				}
+				if impl[j] != model[j] {
+					cl := kind + "-op-c"
+					if f[0] == "C:nohook" && strings.HasPrefix(f[1], "W:") {
+						cl = "crash-point-missing" // the flush wrote without passing that point: overlaps there are no longer exercised
+					}
+					c.Find(Finding{Kind: "corr", Class: cl, Case: caseLine, Impl: impl[j], Model: model[j], Spec: spec[j],
+						Detail: fmt.Sprintf("op #%d %s", j, o.token(k.users))})
+				}
+				if spec[j] != "-" && f[2] != spec[j] {
+					c.Find(Finding{Kind: "oracle", Class: classify(k.users, k.ops, j), Case: caseLine, Impl: impl[j], Model: model[j], Spec: spec[j],
+						Detail: fmt.Sprintf("op #%d %s: the answer of the edit", j, o.token(k.users))})
+				}
+				continue
 			}
 			if o.kind == 'k' {
 				restarted = true
